@@ -85,7 +85,9 @@ class Prop(PropBase):
             if radio:
                 opts += [["cfshift", j, rng.choice([1, -1, 2])]]
         elif axis == "freq":
-            opts += [["cfshift", j, rng.choice([1, -1, 2])], ["tshift", j, rng.choice([1, -2])], ["swap", j], ["dropp", j]] * 2
+            opts += [["tshift", j, rng.choice([1, -2])], ["swap", j], ["dropp", j]] * 2
+            if radio:
+                opts += [["cfshift", j, rng.choice([1, -1, 2])]] * 2
         else:
             opts += [["tshift", j, rng.choice([1, -1, 3])]] * 2
             if radio:
